@@ -1,0 +1,65 @@
+//go:build verif
+
+// Verification contracts (comments only; compiled only with -tags verif).
+// Checked by /verif/bin/govc; see /verif/DESIGN.md.
+
+package v2
+
+//@ // ---- "first non-nil" cascades of docs/executionconfig.md ("Processing and precedence") ----
+//@ spec func orFee(p *bellatrix.ExecutionAddress, d bellatrix.ExecutionAddress) bellatrix.ExecutionAddress = p != nil ? deref(p) : d
+//@ spec func orGas(p *uint64, d uint64) uint64 = p != nil ? deref(p) : d
+//@ spec func orGrace(p *time.Duration, d time.Duration) time.Duration = p != nil ? deref(p) : d
+//@ spec func orMin(p *decimal.Decimal, d decimal.Decimal) decimal.Decimal = p != nil ? deref(p) : d
+//@ spec func orKey(p *phase0.BLSPubKey, d *phase0.BLSPubKey) *phase0.BLSPubKey = p != nil ? p : d
+//@
+//@ // a decoded configuration has no JSON null among its relay and proposer entries (rejected by UnmarshalJSON)
+//@ spec func validConfig(e *ExecutionConfig) bool = e != nil && (forall a string :: in(e.Relays, a) ==> e.Relays[a] != nil) && (forall k int :: 0 <= k && k < len(e.Proposers) ==> e.Proposers[k] != nil && (forall a string :: in(e.Proposers[k].Relays, a) ==> e.Proposers[k].Relays[a] != nil))
+//@
+//@ func setRelayConfig
+//@   requires config != nil && relayConfig != nil
+//@   // relay-level default over the (top-level or fallback) value handed in
+//@   ensures config.FeeRecipient == orFee(relayConfig.FeeRecipient, fallbackFeeRecipient) && config.GasLimit == orGas(relayConfig.GasLimit, fallbackGasLimit)
+//@   ensures config.Grace == orGrace(relayConfig.Grace, old(config.Grace)) && config.MinValue == orMin(relayConfig.MinValue, old(config.MinValue)) && config.PublicKey == orKey(relayConfig.PublicKey, old(config.PublicKey))
+//@   ensures config.Address == old(config.Address)
+//@   modifies config.PublicKey, config.FeeRecipient, config.GasLimit, config.Grace, config.MinValue
+//@
+//@ func updateRelayConfig
+//@   requires config != nil && relayConfig != nil
+//@   // proposer-relay value over whatever was there
+//@   ensures config.FeeRecipient == orFee(relayConfig.FeeRecipient, old(config.FeeRecipient)) && config.GasLimit == orGas(relayConfig.GasLimit, old(config.GasLimit))
+//@   ensures config.Grace == orGrace(relayConfig.Grace, old(config.Grace)) && config.MinValue == orMin(relayConfig.MinValue, old(config.MinValue)) && config.PublicKey == orKey(relayConfig.PublicKey, old(config.PublicKey))
+//@   ensures config.Address == old(config.Address)
+//@   modifies config.PublicKey, config.FeeRecipient, config.GasLimit, config.Grace, config.MinValue
+//@
+//@ func (*ExecutionConfig).generateRelayConfig
+//@   requires e != nil && proposerConfig != nil && proposerRelayConfig != nil
+//@   // a relay that only the proposer entry names: proposer-relay over proposer over top-level over fallback
+//@   ensures result != nil && result.Address == address && result.PublicKey == proposerRelayConfig.PublicKey
+//@   ensures result.FeeRecipient == orFee(proposerRelayConfig.FeeRecipient, orFee(proposerConfig.FeeRecipient, orFee(e.FeeRecipient, fallbackFeeRecipient)))
+//@   ensures result.GasLimit == orGas(proposerRelayConfig.GasLimit, orGas(proposerConfig.GasLimit, orGas(e.GasLimit, fallbackGasLimit)))
+//@   ensures result.Grace == orGrace(proposerRelayConfig.Grace, orGrace(proposerConfig.Grace, orGrace(e.Grace, 0)))
+//@   ensures result.MinValue == orMin(proposerRelayConfig.MinValue, orMin(proposerConfig.MinValue, orMin(e.MinValue, decimal.Zero)))
+//@   ensures fresh(result)
+//@   modifies nothing
+//@
+//@ // shopspring/decimal: the zero Decimal (nil coefficient) has sign 0 (decimal.go, func (d Decimal) Sign)
+//@ extern (github.com/shopspring/decimal.Decimal).Sign
+//@   ensures d.value == nil ==> result == 0
+//@
+//@ // ---- stage 1: every relay of the top-level "relays" section, relay-level default over top-level default over fallback ----
+//@ spec func baseOK(e *ExecutionConfig, r *beaconblockproposer.RelayConfig, fee bellatrix.ExecutionAddress, fallbackGas uint64) bool = r != nil && in(e.Relays, r.Address) && r.FeeRecipient == orFee(e.Relays[r.Address].FeeRecipient, fee) && r.GasLimit == orGas(e.Relays[r.Address].GasLimit, orGas(e.GasLimit, fallbackGas)) && r.Grace == orGrace(e.Relays[r.Address].Grace, orGrace(e.Grace, 0)) && r.MinValue == orMin(e.Relays[r.Address].MinValue, orMin(e.MinValue, decimal.Zero)) && r.PublicKey == e.Relays[r.Address].PublicKey
+//@
+//@ func (*ExecutionConfig).setInitialRelayOptions
+//@   requires validConfig(e) && config != nil && len(config.Relays) == 0
+//@   ghost where (Array Int Int)
+//@   at call append#1: ghost where[address] = len(config.Relays)
+//@   loop 1
+//@     invariant config.FeeRecipient == old(config.FeeRecipient) && len(config.Relays) == nvisited()
+//@     invariant forall k int {config.Relays[k]} :: 0 <= k && k < len(config.Relays) ==> baseOK(e, config.Relays[k], config.FeeRecipient, fallbackGasLimit) && fresh(config.Relays[k]) && visited(config.Relays[k].Address) && where[config.Relays[k].Address] == k
+//@     invariant forall a string {visited(a)} :: visited(a) ==> 0 <= where[a] && where[a] < len(config.Relays) && config.Relays[where[a]].Address == a
+//@   ensures config.FeeRecipient == old(config.FeeRecipient)
+//@   ensures forall k int {config.Relays[k]} :: 0 <= k && k < len(config.Relays) ==> baseOK(e, config.Relays[k], config.FeeRecipient, fallbackGasLimit) && fresh(config.Relays[k])
+//@   // one relay per address of the section, no address twice
+//@   ensures forall j int, k int :: 0 <= j && j < k && k < len(config.Relays) ==> config.Relays[j].Address != config.Relays[k].Address
+//@   ensures forall a string :: in(e.Relays, a) ==> exists k int :: 0 <= k && k < len(config.Relays) && config.Relays[k].Address == a
+//@   modifies config.Relays
